@@ -10,6 +10,7 @@
       to    |-> "h1" | "h2" | "h3",      version of the next hop
       cls   |-> class of the message (see props/C06.py),  mode |-> "buffered" | "streamed",
       valid |-> BOOLEAN                  the message is a legitimate message of version "from"
+      bodydef |-> BOOLEAN                FALSE: declared content-length and DATA sent disagree (no well-defined body)
       sent  |-> Msg                      semantic tuple of what the harness sent
       crashed |-> ""|exception class     an exception escaped from the proxy's layers while handling the message
       n     |-> number of messages the next hop read (HTTP/1: complete messages read by the reference parser)
@@ -46,7 +47,7 @@ Diff(ev) ==
   ELSE IF ~BagEq(S.fields, R.fields) THEN "fields"
   ELSE IF ~BagEq(Flat(S.cookies), Flat(R.cookies)) THEN "cookies"
   ELSE IF ev.to = "h1" /\ ev.from # "h1" /\ ev.dir = "req" /\ Len(R.cookies) > 1 THEN "cookies"
-  ELSE IF ev.complete /\ R.body # S.body THEN "body"
+  ELSE IF ev.complete /\ ev.bodydef /\ R.body # S.body THEN "body"
   ELSE IF ev.complete /\ Carries(ev.to) /\ ~BagEq(S.trailers, R.trailers) THEN "trailers"
   ELSE ""
 
